@@ -72,7 +72,7 @@ def main():
     s = s[:i] + sec7() + "\n" + s[j:]
     if "## 13. Seeded changes" in s:
         i = s.index("## 13. Seeded changes")
-        j = s.index("## Appendix A")
+        j = s.index("## 14. ") if "## 14. " in s else s.index("## Appendix A")
         s = s[:i] + sec13() + "\n---------------------------------------------------------------------------\n\n" + s[j:]
     else:
         j = s.index("## Appendix A")
